@@ -4,13 +4,14 @@ import sys, os, shutil, json, subprocess
 wt, sid, prop, needs = sys.argv[1], sys.argv[2], sys.argv[3], ' '.join(sys.argv[4:])
 dst = os.path.join('/verif/seeded', sid)
 os.makedirs(dst, exist_ok=True)
-for f in ('patch.diff', 'demo.diff', 'notes.md'):
-    shutil.copy(os.path.join(wt, 'SEED', f), os.path.join(dst, f))
+for f in ('patch.diff', 'demo.diff', 'demo.py', 'notes.md'):
+    if os.path.exists(os.path.join(wt, 'SEED', f)):
+        shutil.copy(os.path.join(wt, 'SEED', f), os.path.join(dst, f))
 base = subprocess.run(['git', '-C', '/repo', 'rev-parse', '--short', 'HEAD'], capture_output=True, text=True).stdout.strip()
 meta = dict(id=sid, breaks_property=prop, needs_to_manifest=needs, base_commit=base,
             origin="fresh sub-agent given only the property text and a scratch worktree",
             confirmed_by="tools/seed_confirm.sh <dir> seeded_demo: patch alone -> 104/104 pinned tests pass; clean+demo -> demo passes; patch+demo -> demo fails",
-            files=dict(patch="patch.diff", demonstration="demo.diff", notes="notes.md"),
+            files=dict(patch="patch.diff", demonstration=("demo.diff" if os.path.exists(os.path.join(dst, 'demo.diff')) else "demo.py"), notes="notes.md"),
             detected_by=None)
 json.dump(meta, open(os.path.join(dst, 'meta.json'), 'w'), indent=1)
 print("imported", dst)
